@@ -3,6 +3,7 @@ package file
 import (
 	"bytes"
 	"encoding/base64"
+	"encoding/binary"
 	"encoding/hex"
 	"encoding/pem"
 	"fmt"
@@ -326,6 +327,16 @@ func SSHPublicKey(info Info, data []byte) (Info, error) {
 	return info, nil
 }
 
+// uuidV6Time returns the 60-bit timestamp of a version 6 UUID (RFC 9562, section 5.6):
+// time_high (32 bits), time_mid (16 bits) and, below the version nibble, time_low (12 bits).
+// UUID.Time of google/uuid v1.6.0 returns the first 64 bits unchanged for version 6.
+func uuidV6Time(u uuid.UUID) uuid.Time {
+	high := uint64(binary.BigEndian.Uint32(u[0:4]))
+	mid := uint64(binary.BigEndian.Uint16(u[4:6]))
+	low := uint64(binary.BigEndian.Uint16(u[6:8]) & 0x0fff)
+	return uuid.Time(high<<28 | mid<<12 | low)
+}
+
 func UUIDValue(info Info, data []byte) (Info, error) {
 	u, err := parseUUID(data)
 	if err != nil {
@@ -369,9 +380,10 @@ func UUIDValue(info Info, data []byte) (Info, error) {
 			info.Description = "UUID v5 (SHA1)"
 		case 6:
 			info.Description = "UUID v6 (reordered Gregorian time)"
-			t := time.Unix(u.Time().UnixTime()).UTC()
+			ts := uuidV6Time(u)
+			t := time.Unix(ts.UnixTime()).UTC()
 			info.Attributes = append(info.Attributes, []Attribute{
-				{"Time (raw)", fmt.Sprintf("%d", u.Time())},
+				{"Time (raw)", fmt.Sprintf("%d", ts)},
 				{"Time (UTC)", t.Format("2006-01-02 15:04:05.9999999")},
 			}...)
 		case 7:
